@@ -14,13 +14,13 @@ meta = json.load(open(src + '/meta.json'))
 conf = json.load(open(src + '/confirm.json')) if os.path.exists(src + '/confirm.json') else {}
 out = {
     "property": n[:3],
-    "round": 2 if "r2" in n else 1,
+    "round": 3 if "r3" in n else 2 if "r2" in n else 1,
     "breaks": meta.get("summary"),
     "files": meta.get("files"),
     "needs_to_manifest": meta.get("needs_to_manifest"),
     "demo": [os.path.basename(f) for f in demos],
     "demo_cmd": meta.get("demo_cmd"),
-    "base_commit": ("repaired head of /repo at the time of seeding (round 2)" if "r2" in n else "7ea6fd1 (pristine snapshot; patch.diff applies there)"),
+    "base_commit": ("repaired head of /repo at the time of seeding (round 2/3)" if ("r2" in n or "r3" in n) else "7ea6fd1 (pristine snapshot; patch.diff applies there)"),
     "confirmed_by_me": {
         "how": "tools/confirm_seed.sh in the scratch worktree /tmp/seed/CONFIRM: demo on pristine tree, demo with patch, `cargo test --lib --tests` of the package with patch",
         "demo_on_pristine": conf.get("demo_pristine"),
